@@ -85,6 +85,13 @@ class Rewriter(ast.NodeTransformer):
                                               args=[f.value, node.args[0]], keywords=[]), node)
         return node
 
+    def visit_Subscript(self, node):
+        self.generic_visit(node)
+        if isinstance(node.ctx, ast.Load) and not isinstance(node.slice, ast.Slice):
+            return ast.copy_location(ast.Call(func=ast.Name(id='__sym_getitem', ctx=ast.Load()),
+                                              args=[node.value, node.slice], keywords=[]), node)
+        return node
+
     def visit_Compare(self, node):
         self.generic_visit(node)
         if len(node.ops) == 1:
@@ -217,6 +224,33 @@ class Instrumented(object):
             kinds[k] = kinds.get(k, 0) + 1
         return dict(function=self.qualname, file=self.file, line=self.lineno, sha256=self.sha256[:16],
                     rewrites=kinds)
+
+
+def instrument_class(cls, names, shadows=None, extra=None):
+    """subclass of the real class whose listed methods are the re-compiled real ones; returns (subclass, [Instrumented])"""
+    recs = []
+    d = {}
+    for n in names:
+        raw = cls.__dict__[n]
+        inst = instrument(raw, shadows=shadows, **(extra or {}).get(n, {}))
+        recs.append(inst)
+        fn = inst.fn
+        if isinstance(raw, property):
+            d[n] = property(fn)
+        elif isinstance(raw, staticmethod):
+            d[n] = staticmethod(fn)
+        elif isinstance(raw, classmethod):
+            d[n] = classmethod(fn)
+        else:
+            d[n] = fn
+    # aliases such as  throw_points = stav_points  must follow the re-compiled function
+    for k, v in cls.__dict__.items():
+        if k not in d:
+            for n in names:
+                if v is cls.__dict__[n]:
+                    d[k] = d[n]
+    sub = type(cls.__name__, (cls,), d)
+    return sub, recs
 
 
 def raw_function(f):
